@@ -66,6 +66,7 @@ Definition do_act (a : act) (s : shst) (l : lost) : shst * lost :=
   | XRetBase => (s, add_ret l (base l))
   | XBaseLen c => (s, set_base l (count_cell (cellof c g) (nodes s) + 1))
   | XSetCtrBase1 c => (set_ctr s (cellof c g) (base l + 1), l)
+  | XDelCtr c => (set_ctr s (cellof c g) 1, l)
   | XRemove c => (set_nodes s (filter (fun n => negb ((ncell n =? cellof c g) && (nid n =? k))) (nodes s)), l)
   end.
 
